@@ -250,11 +250,21 @@ func allocBound(inputs [][]byte, stride int) []totFail {
 		}
 		for i := 0; i < len(inputs); i += stride {
 			in := inputs[i]
-			runtime.ReadMemStats(&ms)
-			before := ms.TotalAlloc
-			_ = runOne(d, in)
-			runtime.ReadMemStats(&ms)
-			if delta := ms.TotalAlloc - before; delta > uint64(64*len(in)+4096) {
+			// TotalAlloc is process-wide: a background goroutine of the runtime can allocate during the
+			// measurement. The decoders are deterministic, so an input is reported only if the minimum over
+			// repeated measurements exceeds the bound.
+			limit := uint64(64*len(in) + 4096)
+			delta := ^uint64(0)
+			for try := 0; try < 10 && delta > limit; try++ {
+				runtime.ReadMemStats(&ms)
+				before := ms.TotalAlloc
+				_ = runOne(d, in)
+				runtime.ReadMemStats(&ms)
+				if x := ms.TotalAlloc - before; x < delta {
+					delta = x
+				}
+			}
+			if delta > limit {
 				fails = append(fails, totFail{d.name, fmt.Sprintf("%x", in), fmt.Sprintf("allocated %d bytes for a %d-byte input", delta, len(in))})
 				if len(fails) > 5 {
 					return fails
